@@ -190,14 +190,27 @@ func sortedKeysW(m map[string]WriterM) []string {
 // ---- paging helpers (C13) -------------------------------------------------------------------
 
 type PageStyle struct {
-	Limit      uint64
+	Limit      uint64 // limit of the first page
+	RestLimit  uint64 // limit of every further page (0 = same as Limit)
 	Reverse    bool
 	CountTotal bool
 	ByOffset   bool
 }
 
 func (p PageStyle) String() string {
-	return fmt.Sprintf("limit=%d reverse=%v count=%v offset_based=%v", p.Limit, p.Reverse, p.CountTotal, p.ByOffset)
+	return fmt.Sprintf("limit=%d rest_limit=%d reverse=%v count=%v offset_based=%v", p.Limit, p.RestLimit, p.Reverse, p.CountTotal, p.ByOffset)
+}
+
+// RandomPageStyle draws a paging style: any page size (including 0 = default, sizes around 1000 and absurdly
+// large ones), key- or offset-based, forward or reverse, with or without count_total, and a different size
+// for the pages after the first ("first k, then everything left").
+func RandomPageStyle(r *PRNG) PageStyle {
+	lim := []uint64{0, 1, 1, 2, 2, 3, 7, 100, 999, 1000, 1001, 5000, 1 << 40, ^uint64(0) >> 1}
+	st := PageStyle{Limit: lim[r.Intn(len(lim))], Reverse: r.Chance(0.35), CountTotal: r.Chance(0.4), ByOffset: r.Chance(0.45)}
+	if r.Chance(0.4) {
+		st.RestLimit = lim[1+r.Intn(len(lim)-1)]
+	}
+	return st
 }
 
 // pageAll pages through a listing until exhaustion. fetch returns the items of one page and the page response.
@@ -205,7 +218,11 @@ func pageAll(style PageStyle, fetch func(*query.PageRequest) ([]string, *query.P
 	var key []byte
 	var offset uint64
 	for pages = 0; pages < 1000; pages++ {
-		req := &query.PageRequest{Limit: style.Limit, Reverse: style.Reverse, CountTotal: style.CountTotal}
+		limit := style.Limit
+		if pages > 0 && style.RestLimit != 0 {
+			limit = style.RestLimit
+		}
+		req := &query.PageRequest{Limit: limit, Reverse: style.Reverse, CountTotal: style.CountTotal}
 		if style.ByOffset {
 			req.Offset = offset
 		} else {
@@ -221,7 +238,7 @@ func pageAll(style PageStyle, fetch func(*query.PageRequest) ([]string, *query.P
 		}
 		if style.ByOffset {
 			offset += uint64(len(got))
-			eff := style.Limit
+			eff := limit
 			if eff == 0 {
 				eff = query.DefaultLimit
 			}
